@@ -646,3 +646,6 @@ V('twin-split-msh-version-var', 'C07', 'hl7apy/parser.py', "            elif len
 V('twin-find-child-reference-early-return', 'C14', 'hl7apy/core.py',
   "            element = find_reference(name, self.child_classes.values(), self.version)\n            if element is None:\n                raise ChildNotFound(name)\n            # it means",
   "            element = find_reference(name, self.child_classes.values(), self.version)\n            # it means", expect='clean')
+V('reg-c15-validator-none-flow', 'C15', 'hl7apy/validation.py',
+  "                    errs.append(ValidationError(\"Invalid element found: {}\".format(el)))\n                    return\n",
+  "                    errs.append(ValidationError(\"Invalid element found: {}\".format(el)))\n", rule='C15-N')
